@@ -32,4 +32,14 @@ TEXTS["C02"] = dict(
                "by name and by key, sequential or in concurrent phases, with clean and crash restarts. Released proposals are compared pairwise per key; in "
                "sequential histories slots must strictly increase in release order (under concurrency response order is not defined, so only the pairwise check applies there).",
     level_note=TRUST)
+TEXTS["C03"] = dict(
+    technique="deterministic simulation: crash injection at seeded yield points with restart on directory images (exact / torn / after-write), ledger + sign-seam + acknowledgement-durability oracles",
+    level_text="Seeded search over (history, schedule, crash point, surviving image) for one real Dirk instance on badger: the simulator kills the incarnation at a "
+               "drawn yield point (biased to: before a store write, torn inside it, after it but before approval, between approval and Sign), restarts the real "
+               "stack on the surviving directory image and continues with conflict-seeking requests, up to 3 crashes per run. Oracles: no conflicting pair in the "
+               "ledger of released signatures across incarnations; export after each restart covers every released signature; when Sign is invoked the live "
+               "store and (sampled) a fresh rules service opened on a copy of the directory already cover the duty (record-then-sign); with GOMAXPROCS=1 the value "
+               "log must not grow after a storage call has returned (acknowledged before written); SyncWrites is on for every opened store.",
+    level_note=TRUST + " Process-kill semantics only in this layer: the image is the directory at a quiescent instant; page-cache loss (power failure) is not modelled here, "
+               "so an fsync that is dropped while the write() still happens is caught only through the SyncWrites option check.")
 NOT_APPLICABLE = {}
